@@ -191,12 +191,21 @@ def readAll (cells : List V) (inst : Inst) : List Op → List (String × V)
      | none => []) ++ readAll cells inst r
   | .wr _ :: r => readAll cells inst r
 
+/-- the cell thread `j` accesses with its next step: the slot its next `rd` / `wr` refers to, or - while
+`WithConfig` copies - the receiver's cell of the slot that is copied next -/
+def nextAccess (c : Config V Ov) (j : Nat) : Option Addr :=
+  match (c.threads j).ops with
+  | o :: _ =>
+    (c.store.insts[(c.threads j).recv]?).bind fun inst => inst.addr (match o with | .rd s => s | .wr s => s)
+  | [] =>
+    match (c.threads j).phase with
+    | .build _ _ (sa :: _) _ => some sa.2
+    | _ => none
+
 /-- two threads are about to access the same cell and one of them writes it -/
 def Conflict (c : Config V Ov) (i j : Nat) : Prop :=
   i ≠ j ∧ ∃ s rest inst a, (c.threads i).ops = .wr s :: rest ∧
-    c.store.insts[(c.threads i).recv]? = some inst ∧ inst.addr s = some a ∧
-    ∃ o rest' inst', (c.threads j).ops = o :: rest' ∧ c.store.insts[(c.threads j).recv]? = some inst' ∧
-      (inst'.addr (match o with | .rd s' => s' | .wr s' => s') = some a)
+    c.store.insts[(c.threads i).recv]? = some inst ∧ inst.addr s = some a ∧ nextAccess c j = some a
 
 /-! ## An executable scheduler (what the driver runs): the enabled step of a thread, as a function -/
 
